@@ -29,14 +29,18 @@ PROFILE_WEIGHTS = {
     "daily": [("default", 5), ("legacy", 3), ("seasonmap", 2), ("dev_nosmooth", 1), ("dev_alphaall", 0.5),
               ("dev_nogauss", 0.3), ("dev_cvrmse", 1), ("legacy_dev", 1)],
     "billing": [("default", 5), ("seasonmap", 2), ("dev_cvrmse", 1.5), ("dev_split", 1)],
-    "hourly": [("seed1", 4), ("robust", 1.5), ("solar", 1.5), ("nonsolar", 1.5), ("adaptive", 1), ("lowthr", 1.5),
-               ("obj", 1)],
+    "hourly": [("seed1", 4), ("seed0", 1), ("robust", 1.5), ("solar", 1.5), ("solar_rev", 0.8), ("nonsolar", 1.5), ("adaptive", 1), ("lowthr", 1.5),
+               ("cvonly", 0.8), ("pnonly", 0.8), ("noedge", 1), ("obj", 1)],
     "caltrack": [("default", 1)],
 }
 DEFECTS = {"daily": ["short", "long", "gaps", "tmonth", "neg", "noise"],
            "billing": ["short", "long", "tmonth", "neg", "noise"],
            "hourly": ["short", "long", "gaps", "tmonth", "neg", "noise", "short9"],
            "caltrack": []}
+
+
+# every (family, profile) is the bootstrap model of one run in each batch: run index i < len(ROUND_ROBIN)
+ROUND_ROBIN = [(f, p) for f in ("daily", "billing", "hourly", "caltrack") for p, _w in PROFILE_WEIGHTS[f]]
 
 
 def _wchoice(rng, pairs):
@@ -108,7 +112,7 @@ class Gen:
     def _new_base(self, fam):
         r = self.rng
         dfam = self._data_fam(fam)
-        sample = r.random() < self.swarm["sample_rate"]
+        sample = r.random() < (0.5 if (self.mode == "C03" and dfam == "hourly") else self.swarm["sample_rate"])
         rec = {"fam": dfam, "role": "baseline"}
         if sample:
             rec["src"] = "sample"
@@ -120,6 +124,8 @@ class Gen:
         rec["tz"] = _wchoice(r, [("America/Chicago", 3), ("US/Pacific", 1), ("Europe/London", 1.5),
                                  ("Australia/Sydney", 1.5), ("Asia/Kolkata", 1), ("UTC", 1)])
         rec["entry"] = r.choice(["series", "frame"])
+        if dfam in ("daily", "hourly") and r.random() < 0.15:
+            rec["entry"] = "frame_col"
         if r.random() < self.swarm["defect_rate"] and DEFECTS[dfam]:
             rec["defect"] = r.choice(DEFECTS[dfam])
         if dfam == "hourly":
@@ -147,8 +153,12 @@ class Gen:
         rec["tgap"] = 1 if r.random() < 0.2 else 0
         if base.get("src") != "sample":
             rec["entry"] = r.choice(["series", "frame"])
+            if dfam in ("daily", "hourly") and r.random() < 0.15:
+                rec["entry"] = "frame_col"
         if foreign_tz:
             others = [t for t in C.TZS if t != base["tz"]]
+            if r.random() < 0.5:
+                others = C.LOOKALIKE[base["tz"]]  # another zone with the same UTC offset (always or in winter)
             rec["tz"] = r.choice(others)
         if dfam == "hourly" and r.random() < 0.1:
             rec["ghi"] = not base.get("ghi", False)  # feature mismatch on purpose
@@ -191,7 +201,7 @@ class Gen:
             return {"q": round(r.betavariate(1, 3), 4), "exc": r.choice(["MemoryError", "KeyboardInterrupt"])}
         return None
 
-    def fit(self, fam, base_slot, profile=None, ignore=None, mslot=None, reuse=False):
+    def fit(self, fam, base_slot, profile=None, ignore=None, mslot=None, reuse=False, allow_abort=True):
         r = self.rng
         profile = profile or self._profile(fam)
         rec = self.data.get(base_slot, {})
@@ -204,7 +214,7 @@ class Gen:
         args = dict(m=mslot, fam=fam, profile=profile, d=base_slot, ignore=ignore)
         if reuse:
             args["reuse"] = True
-        ab = self._abort_mod(0.06 if self.mode != "C02" else 0.12)
+        ab = self._abort_mod(0.06 if self.mode != "C02" else 0.12) if allow_abort else None
         if ab:
             args["abort"] = ab
         self.emit("FIT", **args)
@@ -285,6 +295,61 @@ class Gen:
             how = r.choice(["reseed", "draw"])
             self.emit("RNG", how=how, x=r.randrange(1, 10_000))
 
+    def prelude(self, m0, base0):
+        """The core path of the property, once per (family, profile) in every batch."""
+        r = self.rng
+        mode = self.mode
+        ds = self._data_for(m0)
+        if mode == "C01":
+            self.predict(m0, ds[0], ignore=True)
+            doc = self.store(m0)
+            if self.swarm["faults"]["crash"]:
+                self.crash()
+            m1 = self.load(doc)
+            d1 = self.make_data(self._reporting(base0, obs="present"))
+            self.predict(m1, d1, ignore=True)
+            doc2 = self.store(m1)
+            m2 = self.load(doc2)
+            self.predict(m2, d1, ignore=True)
+            self.emit("INSPECT", m=m2)
+        elif mode == "C02":
+            d1 = self.make_data(self._reporting(base0, span=r.choice(["day", "week"])))
+            self.predict(m0, d1, ignore=True)
+            self.predict(m0, ds[0], ignore=True)
+            self.emit("SCRIBBLE_PRED", m=m0)
+            self.emit("SCRIBBLE_DATA", d=ds[0])
+            self.predict(m0, ds[0], ignore=True)
+            doc = self.store(m0)
+            # the same history on a restored object: short span first, then the longer one
+            m1 = self.load(doc)
+            self.predict(m1, d1, ignore=True)
+            self.predict(m1, ds[0], ignore=True)
+        elif mode == "C03":
+            self.store(m0)
+            self.predict(m0, ds[0], ignore=True)
+            self.fault()
+            m = self.models[m0]
+            if m["fam"] != "caltrack":
+                d = self.make_data(base0)
+                m1 = self.fit(m["fam"], d, profile=m["profile"], ignore=True)
+                self.predict(m1, ds[0], ignore=True)
+        elif mode == "C04":
+            self.predict(m0, ds[0], ignore=False)
+            doc = self.store(m0)
+            m1 = self.load(doc)
+            self.predict(m1, ds[0], ignore=False)
+            self.predict(m1, ds[0], ignore=True)
+        elif mode == "C05":
+            rec = self._reporting(base0, obs="present")
+            rec["tgap"] = 0
+            self.emit("PREDICT_PAIR", m=m0, recipe=rec, alter=r.choice(["scaled", "shuffled", "partnan", "allnan", "absent"]))
+            d1 = self.make_data(self._reporting(base0, span=r.choice(["day", "week"])))
+            self.predict(m0, d1, ignore=True)
+            rec2 = self._reporting(base0, obs="present", span="full")
+            rec2["tgap"] = 0
+            self.emit("PREDICT_PAIR", m=m0, recipe=rec2, alter=r.choice(["scaled", "shuffled", "allnan", "absent"]))
+            self.cost += 4 * PRED_COST.get(self.models[m0]["fam"], 0.3)
+
     # ------------------------------------------------------------------ picking
 
     def _models_of(self, pred=lambda m: True):
@@ -309,23 +374,44 @@ class Gen:
         sw = self.swarm
         mode = self.mode
         # bootstrap: one fitted model with one reporting set
-        fam0 = r.choice(sw["families"])
-        if fam0 == "caltrack" and len(sw["families"]) > 1 and r.random() < 0.5:
-            fam0 = r.choice([f for f in sw["families"] if f != "caltrack"])
+        idx = self.seed % 1_000_003
+        forced = None
+        if idx < len(ROUND_ROBIN):
+            forced = ROUND_ROBIN[idx]
+            fam0 = forced[0]
+            if fam0 not in sw["families"]:
+                sw["families"].append(fam0)
+                self.pool[fam0] = [self._new_base(fam0) for _ in range(2)]
+        else:
+            fam0 = r.choice(sw["families"])
+            if fam0 == "caltrack" and len(sw["families"]) > 1 and r.random() < 0.5:
+                fam0 = r.choice([f for f in sw["families"] if f != "caltrack"])
         base0 = r.choice(self.pool[fam0])
+        if forced:
+            if P.needs_ghi(fam0, forced[1]):
+                base0 = dict(base0, ghi=True)
+                base0.pop("src", None)
+                if base0["mid"] < 100:
+                    base0["mid"] += 100
+            if mode != "C04":
+                base0 = {k: v for k, v in base0.items() if k != "defect"}
+            self.pool[fam0].append(base0)
         b = self.make_data(base0)
-        m0 = self.fit(fam0, b)
+        m0 = self.fit(fam0, b, profile=forced[1] if forced else None, ignore=True if forced else None,
+                      allow_abort=not forced)
         self.make_data(self._reporting(base0))
+        if forced:
+            self.prelude(m0, base0)
         weights = {
-            "make_reporting": 3, "make_baseline": 1.2, "fit": 1.6, "fit_shared": 0.5, "refit_key": 0.4, "predict": 7,
+            "make_reporting": 3, "make_baseline": 1.2, "fit": 1.6, "fit_shared": 0.5, "refit_key": 0.4, "refit_other": 0.5, "predict": 7,
             "predict_odd": 0.6, "pair": 1.0, "store": 1.6, "load": 1.6, "store_load_predict": 0.8, "crash": 0.5,
             "scribble_data": 0.5, "scribble_pred": 0.5, "inspect": 0.4, "new_model": 0.25, "fault": 1.6,
         }
         mult = {
-            "C01": {"store": 2.5, "load": 2.5, "store_load_predict": 4, "crash": 2.5, "fit": 1.3},
-            "C02": {"predict": 1.4, "scribble_data": 2, "scribble_pred": 2, "fit_shared": 3, "inspect": 2,
+            "C01": {"store": 2.5, "load": 2.5, "store_load_predict": 4, "crash": 2.5, "fit": 1.3, "refit_other": 2},
+            "C02": {"predict": 1.4, "refit_other": 2, "scribble_data": 2, "scribble_pred": 2, "fit_shared": 3, "inspect": 2,
                     "make_reporting": 1.3},
-            "C03": {"refit_key": 9, "fit": 1.5, "fault": 2.5, "crash": 1.5, "predict": 0.6},
+            "C03": {"refit_key": 9, "refit_other": 2, "fit": 1.5, "fault": 2.5, "crash": 1.5, "predict": 0.6},
             "C04": {"new_model": 4, "predict_odd": 5, "make_baseline": 2.5, "fit": 2, "store_load_predict": 2,
                     "fit_shared": 2},
             "C05": {"pair": 9, "predict": 1.2, "make_reporting": 1.4, "store_load_predict": 1.5},
@@ -392,6 +478,30 @@ class Gen:
                     self.fit(m["fam"], d, profile=m["profile"], ignore=m["ignore"], mslot=ms, reuse=True)
                 else:
                     self.fit(m["fam"], d, profile=m["profile"], ignore=m["ignore"])
+            elif op == "refit_other":
+                # the same model object fitted again on ANOTHER meter of its family
+                if not fitted or self.n_fit >= 6:
+                    continue
+                ms = r.choice(fitted)
+                m = self.models[ms]
+                if m["fam"] == "caltrack" or m.get("restored"):
+                    continue
+                if FIT_COST.get((m["fam"], m["profile"]), FIT_COST.get(m["fam"], 1)) > 4:
+                    continue
+                others = [b_ for b_ in self.pool[m["fam"]] if b_ != m["base"]] if m["fam"] in self.pool else []
+                base = r.choice(others) if others else self._new_base(m["fam"])
+                if m["fam"] == "hourly" and bool(base.get("ghi")) != bool(m["base"].get("ghi")):
+                    # a used HourlyModel object keeps the feature set chosen at its first fit (not claimed): same GHI-ness
+                    base = dict(base, ghi=bool(m["base"].get("ghi")))
+                    if base.get("src") == "sample":
+                        base.pop("src")
+                        base["mid"] += 100
+                d = self.make_data(base)
+                self.fit(m["fam"], d, profile=m["profile"], ignore=True, mslot=ms, reuse=True)
+                self.make_data(self._reporting(base, obs="present"))
+                dd = self._data_for(ms)
+                if dd:
+                    self.predict(ms, dd[-1], ignore=True)
             elif op == "predict":
                 if not fitted:
                     continue
